@@ -89,14 +89,23 @@ struct Dumper
 		}
 		for (auto itr(ctx._be.begin()); itr != ctx._be.end(); ++itr)
 		{
-			unsigned ft;
+			// the C++ class of the field object (Field<T>) decides how a value is parsed/printed and what
+			// has_group_count reads; the trait tables carry their own ftype (f8c hard-codes ft_int for
+			// group count traits).  Report the trait type unless the object's class contradicts it
+			// (FIX44 field 604 NoLegSecurityAltID: STRING in the schema, ft_int in the trait).
+			std::unique_ptr<FIX8::BaseField> bf(itr->_value._create._do("", itr->_value._rlm, -1));
+			const unsigned ut(static_cast<unsigned>(bf->get_underlying_type()));
+			unsigned ft(ut == FIX8::FieldTrait::ft_data ? static_cast<unsigned>(FIX8::FieldTrait::ft_string) : ut);
 			auto fi(ftypes.find(itr->_key));
 			if (fi != ftypes.end())
-				ft = fi->second;
-			else
 			{
-				std::unique_ptr<FIX8::BaseField> bf(itr->_value._create._do("00000000-00:00:00.000", itr->_value._rlm, -1));
-				ft = static_cast<unsigned>(bf->get_underlying_type());
+				const FIX8::FieldTrait::FieldType tt(static_cast<FIX8::FieldTrait::FieldType>(fi->second));
+				const unsigned tu(static_cast<unsigned>(FIX8::FieldTrait::underlying_type(tt)));
+				const bool agree(tu == ut || (tu == FIX8::FieldTrait::ft_string && (ut == FIX8::FieldTrait::ft_data || ut == FIX8::FieldTrait::ft_string)));
+				if (agree)
+					ft = fi->second;
+				else
+					body << "# classmismatch " << itr->_key << " trait " << fi->second << " class " << ut << '\n';
 			}
 			os << "F " << itr->_key << ' ' << ft << ' ' << itr->_value._name << '\n';
 		}
